@@ -47,9 +47,15 @@ __all__ = [
 
 class _MetricFunctionWrapper(BaseEstimator):
     def __init__(self, func, name=None, greater_is_better=False):
-        self._func = func
+        # stored under the name of the constructor argument as well, so that
+        # get_params / set_params / clone work (also of tuners holding a scorer)
+        self.func = func
         self.name = name if name is not None else func.__name__
         self.greater_is_better = greater_is_better
+
+    @property
+    def _func(self):
+        return self.func
 
     def __call__(self, y_true, y_pred, **kwargs):
         """Returns calculated loss metric by passing `y_true` and `y_pred` to
